@@ -18,14 +18,28 @@ Definition StaleOK (s : core) : Prop :=
   1 <= clock (kern s) /\ (time_valid s = true -> 1 <= time s).
 Definition RanOK (s : core) : Prop :=
   forall k, In k (ran (mst s)) -> tepoch s k = epoch s /\ ~ In k (curl s).
-Definition CODES : list Z := [401; 603; 602; 604; 403; 404; 405; 901; 902].
-Definition G1 (m : mon) : Prop := forall c, In c CODES -> NF c m.
-Definition clean_ev (e : tev) : bool := forallb (fun c => negb (mem_z c (codes_of e))) CODES.
+(* the clauses 901 / 902 are carried only under the assumption that a posted raw event is
+   readable at every kernel wait (class RawAssume: False = not assumed) *)
+Class RawAssume := raw_assume : Prop.
+Definition CODES : list Z := [401; 603; 602; 604; 403; 404; 405].
+Definition RCODES : list Z := [901; 902].
+Definition ALLC : list Z := [401; 603; 602; 604; 403; 404; 405; 901; 902].
+Definition clean_ev (e : tev) : bool := forallb (fun c => negb (mem_z c (codes_of e))) ALLC.
+
+Section RA.
+Context `{RAi : RawAssume}.
+
+Definition Act (c : Z) : Prop := In c CODES \/ (raw_assume /\ In c RCODES).
+Lemma Act_all : forall c, Act c -> In c ALLC.
+Proof. intros c [H|[_ H]]; cbn in *; tauto. Qed.
+Lemma Act_raw : forall c, Act c -> In c RCODES -> raw_assume.
+Proof. intros c [H|[H _]] R; [|exact H]. cbn in *. exfalso. intuition (subst; discriminate). Qed.
+Definition G1 (m : mon) : Prop := forall c, Act c -> NF c m.
 
 Lemma G1_step : forall m e, G1 m -> clean_ev e = true -> G1 (mon_step m e).
 Proof.
   intros m e G C c Hc. apply NF_step; [apply G; exact Hc|].
-  unfold clean_ev in C. rewrite forallb_forall in C. specialize (C c Hc).
+  unfold clean_ev in C. rewrite forallb_forall in C. specialize (C c (Act_all c Hc)).
   apply negb_true_iff in C. apply mem_z_false in C. exact C.
 Qed.
 
@@ -56,7 +70,7 @@ Qed.
 Lemma G1_silent : forall m m', silent_ext m m' -> G1 m -> G1 m'.
 Proof.
   intros m m' S G c Hc. eapply silent_NF; [exact S| | |apply G; exact Hc];
-    cbn in Hc; intuition (subst; discriminate).
+    apply Act_all in Hc; cbn in Hc; intuition (subst; discriminate).
 Qed.
 
 Lemma silent_ghost : forall m m', silent_ext m m' -> a_stale m' = a_stale m /\ ran m' = ran m /\ a_rwp m' = a_rwp m.
@@ -434,3 +448,4 @@ Proof.
   eapply (Q1_bind b); [apply do_action_post; eassumption|eapply do_action_Q1; eassumption|].
   intros s1 J1 T1'. apply IH; assumption.
 Qed.
+End RA.
